@@ -3,7 +3,7 @@
 PROPS = {}
 
 # properties not (yet) claimed, with the reason; kept current by hand
-NOT_APPLICABLE = [dict(property_id=i, reason='check not built yet in this round (planned, see DESIGN.md section 3)') for i in ['C01', 'C02', 'C03', 'C04', 'C05', 'C06', 'C07', 'C08', 'C09', 'C10', 'C11', 'C12', 'C13', 'C14', 'C15', 'C16', 'C17', 'C18', 'C19'] if i not in ('C17',)]
+_NA = lambda: [dict(property_id=i, reason='check not built yet in this round (planned, see DESIGN.md section 3)') for i in ['C01', 'C02', 'C03', 'C04', 'C05', 'C06', 'C07', 'C08', 'C09', 'C10', 'C11', 'C12', 'C13', 'C14', 'C15', 'C16', 'C17', 'C18', 'C19'] if i not in PROPS]
 
 # commits in /repo that add guarded hook code (none: every observation point is public API)
 HOOK_COMMITS = []
@@ -25,3 +25,39 @@ PROPS["C17"] = dict(
     quick=dict(checks=25000, shards=2, timeout=600),
     thorough=dict(checks=250000, shards=16, timeout=3000),
 )
+
+PROPS["C07"] = dict(
+    pkg="c07",
+    level="exploration",
+    technique="property-based testing (rapid): differential against a from-the-spec reference ESL codec + encode/decode round-trip, both directions",
+    level_text=("Generated well-formed EFI_SIGNATURE_LIST streams (0..6 lists: X.509 with any certificate size/count, SHA-256, "
+                "EXTERNAL_MANAGEMENT, empty lists, adjacent lists of equal type and size) are decoded by the library and compared field by field "
+                "with a reference decoder written from the specification layout, then re-encoded and compared byte for byte; databases built "
+                "through Append/Remove/AppendList are encoded, checked well-formed by the reference and re-decoded to an equal database."),
+    level_note="Trusts ref/esl (reference codec; round-trips the repository's .esl fixtures and captured variables at the start of every run).",
+    rule=("rapid-generated case = reference-encoded well-formed stream (+ optionally 1..12 builder operations applied to the decoded database). "
+          "Non-trivial = stream with >=2 lists or >=2 entries or an EXTERNAL_MANAGEMENT list or an empty list; distinct by SHA-256 of (stream, ops)."),
+    assumptions=["ref/esl reference codec", "builder operations only use types the decoder handles (other types belong to C09)"],
+    quick=dict(checks=15000, shards=2, timeout=600),
+    thorough=dict(checks=150000, shards=16, timeout=3000),
+)
+
+PROPS["C08"] = dict(
+    pkg="c08",
+    level="exploration",
+    technique="property-based testing (rapid) over near-language mutations with a reference accept/reject decoder; exhaustive truncation points per stream; native fuzzing (thorough)",
+    level_text=("Inputs near the well-formed language are derived from generated streams: every truncation point (exhaustive per stream for a "
+                "quarter of the cases), ListSize/HeaderSize/SignatureSize set to boundary values, type GUID replaced by valid-but-unhandled or "
+                "random GUIDs, trailing and inserted garbage, pairs of these. Oracle: a library result without error implies that the reference "
+                "decoder accepts the whole input and yields the same lists. Thorough tier adds coverage-guided native fuzzing with the same oracle."),
+    level_note="Trusts ref/esl.Decode as the statement of 'well-formed' (whole input consumed, ListSize = 28 + HeaderSize + n*Size, Size >= 16, SHA-256 Size = 48, handled types only).",
+    rule=("case = small reference-encoded stream + 0..2 mutations (+ every truncation point of the result for 1 case in 4); every input fed to the decoder "
+          "counts as one evaluation. Non-trivial = input that differs from the well-formed stream and that the reference rejects; distinct by SHA-256 of the input."),
+    assumptions=["ref/esl reference decoder"],
+    exhaustive_note="every truncation point of each 'AllCuts' stream (class every_truncation_point)",
+    quick=dict(checks=12000, shards=2, timeout=600),
+    thorough=dict(checks=120000, shards=16, timeout=3000),
+    fuzz=[("FuzzC08", 90)],
+)
+
+NOT_APPLICABLE = _NA()
